@@ -12,6 +12,7 @@ package main
 
 import (
 	"fmt"
+	"os"
 	"sort"
 	"strings"
 )
@@ -736,6 +737,22 @@ func augment(lines []string, guard, goal string, intFuncs map[string]bool) (extr
 			terms = append(terms, &sexp{atom: w})
 		}
 	}
+	// the element a range loop is looking at (index rangeindex+1) is what a hypothesis about the
+	// whole input has to be instantiated at when the body has just copied that element somewhere
+	if len(terms) > 0 {
+		var idx []string
+		for _, l := range lines {
+			if strings.HasPrefix(l, "(declare-const lh_rangeindex!") {
+				idx = append(idx, strings.Fields(l)[1])
+			}
+		}
+		if len(idx) > 1 {
+			idx = idx[len(idx)-1:]
+		}
+		for _, w := range idx {
+			terms = append(terms, &sexp{list: []*sexp{{atom: "+"}, {atom: w}, {atom: "1"}}})
+		}
+	}
 	if len(terms) == 0 && len(other) == 0 {
 		return extraDecls, nil, newGoal
 	}
@@ -762,6 +779,13 @@ func augment(lines []string, guard, goal string, intFuncs map[string]bool) (extr
 	for round := 0; round < 3; round++ {
 		if len(terms) > 16 {
 			terms = terms[:16]
+		}
+		if os.Getenv("GOCV_DEBUG_INST") != "" {
+			var ts []string
+			for _, t := range terms {
+				ts = append(ts, t.String())
+			}
+			fmt.Fprintf(os.Stderr, "inst round %d limit %d terms %v\n", round, limit, ts)
 		}
 		newApps := map[string]*sexp{}
 		bySort := map[string][]*sexp{"Int": terms}
